@@ -1201,7 +1201,7 @@ def gen_core(repo):
     out = HEADER % rel
     probs = []
     try:
-        v, _ = anchored_literal(src, "drop", r"for \w+ in 0\.\.=?\s*(\w+)\s*\{", "TEARDOWN_ROUNDS", impl=r"Drop for Stakker")
+        v, _ = anchored_literal(src, "drop", r"for \w+ in 0\.\.(\w+)\s*\{", "TEARDOWN_ROUNDS", impl=r"Drop for Stakker")
         out += "(* %s: Stakker::drop drain rounds *)\nDefinition TEARDOWN_ROUNDS : Z := %d.\n\n" % (rel, v)
         v1, _ = anchored_literal(src, "new", r"recreate_queues_time: now \+ Duration::from_secs\((\w+)\)", "RECREATE_SECS", impl=r"Stakker")
         v2, _ = anchored_literal(src, "run", r"self\.recreate_queues_time = now \+ Duration::from_secs\((\w+)\)", "RECREATE_SECS", impl=r"Stakker")
